@@ -95,11 +95,12 @@ class CleanBase(Prop):
         run = []
         values = dict(entries)
         count = r.weighted([(1, 3), (2, 1), (3, 1)])
+        with_stand = {t: r.chance(1, 4) for t in tests}     # (the same calls in every one of the `count` executions)
         for _ in range(count):
             seqs = []
             for t in tests:
                 calls = [G.op_match_snap(0, t, [values[b"%s - %d" % (t, k)]]) for k in range(1, ncalls[t] + 1)]
-                if r.chance(1, 4):
+                if with_stand[t]:
                     calls.append(G.op_match_doc("stand", 0, t, b"sv"))
                 seqs.append(calls + [G.op_end(t)])
             run += G.interleave(r, seqs)
@@ -164,11 +165,11 @@ class C09(CleanBase):
     def oracle(self, case, ops, results):
         meta = case["meta"]
         if "tests" not in meta:
-            return []
+            return self.skip("guard")
         fss = [r for r in results if r[0] == "fs"]
         cl = [r for r in results if r[0] == "clean"]
         if len(fss) < 2 or not cl:
-            return []
+            return self.skip("guard")
         before, after = fss[0][2], fss[1][2]
         c = cl[0][2]
         fails = []
@@ -195,10 +196,10 @@ class C09(CleanBase):
                 execs[kv["test"]] = execs.get(kv["test"], 0) + 1
         cnt = next((int(kv["count"]) for name, kv in ops if name == "clean"), 1)
         if not calls and not stand:
-            return []      # no directory was visited: nothing is claimed
+            return self.skip("no directory was visited: nothing is claimed")
         if any(execs.get(t, 0) != cnt for (_, t) in list(calls)) or any(execs.get(t, 0) != cnt for t in stand) \
                 or any(n_ % cnt for n_ in list(calls.values()) + list(stand.values())):
-            return []      # not `count` uniform executions (shrunk case)
+            return self.skip("not `count` uniform executions (shrunk case")
         addressed = {}
         for (path, t), n_ in calls.items():
             for k in range(1, n_ // cnt + 1):
